@@ -35,8 +35,8 @@ CLAIMED = {
  "C20": ("WaitGroup discipline on all paths (WG-DISCIPLINE), re-validation of the stop flag after the blocking Acquire (RECHECK), semaphore acquire/release pairing (SEMA-PAIR), lock-dominates-store and no-unchecked-assertion rules on error aggregation (ERR-AGG)",
          "Structural necessary conditions for peach/run-parallel: Add before go, Done exactly once per worker, Wait before every return, the broken flag re-read after waiting for a slot, slots released exactly once or handed to a worker, shared error written under its mutex, callee errors never asserted unchecked. Output union and exactly-once per input under all schedules are not decided.",
          "trusts go/ssa"),
- "C21": ("defer/dominance and pairing checks on the with/tmp/defer machinery (RESTORE-DEFER, DEFERS-RUN), loop-direction check on the restore loops (REVERSE), guarded-overwrite check on exception combination (BODY-WINS)",
-         "Structural necessary conditions on every exit path: with's restores run from a defer registered before the first assignment; set() saves before Var.Set and registers the restore only on success; tmp registers through the frame's defer list; Closure.Call always runs the defer list after the body; both restore loops run last-to-first; a restore/deferred exception replaces the result only when the body's is nil. Restored values and dynamic nesting are not decided.",
+ "C21": ("defer/dominance and pairing checks on the with/tmp/defer machinery (RESTORE-DEFER, DEFERS-RUN), loop-direction check on the restore loops (REVERSE), guarded-overwrite check on exception combination (BODY-WINS), lock-region check on writes through Frame fields shared by forks (FORK-SHARED), who-may-write rule on compiled ops during execution (OP-READONLY)",
+         "Structural necessary conditions on every exit path: with's restores run from a defer registered before the first assignment; set() saves before Var.Set and registers the restore only on success; tmp registers through the frame's defer list; Closure.Call always runs the defer list after the body; both restore loops run last-to-first; a restore/deferred exception replaces the result only when the body's is nil; the defer list shared by the forks of a frame is appended to under a mutex; no exec method of a compiled op writes into the op (re-entered executions share it). Restored values and dynamic nesting are not decided.",
          "trusts go/ssa"),
  "C22": ("dominance of module evaluation by a failed lookup of the same key (CACHE-KEY), install/execute/delete pairing on all paths of evalModule (INSTALL-PAIR), branch-shape check of relative-spec resolution plus call-graph reachability from the compiler to os.Getwd (RELATIVE-BASE)",
          "Structural necessary conditions: a module is evaluated only after its key missed in the module table and is installed under that same key before running, the importer gets the installed namespace, a failing evaluation deletes the entry on every path, relative specs resolve against the importing file's directory or the working directory, which is read when the import runs and not when the code is compiled. Path normalisation, plugins and concurrent imports are not decided.",
@@ -44,8 +44,8 @@ CLAIMED = {
  "C16": ("dominance of prepare/execute/global-store by the no-error edges of parse and compile (GATE), parameter-use check that compile clones its namespace (COMPILE-PURE), argument-provenance check over all compile callers and backward slice of what a static check returns (CHECK-AGREE)",
          "Structural necessary conditions: nothing is prepared, stored into the interpreter or executed unless both parsing and compilation succeeded; compilation mutates only a clone of the namespace; evaluation and the static check compile against the same builtin and namespace views, and a static check reports the compilation it has just done, not a remembered answer. Equality of the reported error sets for all programs is not decided.",
          "trusts go/ssa"),
- "C08": ("sibling agreement between Equal and Hash implementations: receiver-field subset check per type (EH-PAIR), per-case checks inside vals.Hash - zero normalisation, commutative and identical map/field-map combiners (EH-CASE), case-order consistency (EH-ORDER)",
-         "Structural necessary condition for 'eq implies same hash', type by type: fields hashed are fields compared, address hashes only with identity equality, +0/-0 hash alike, eq maps and field maps hash alike regardless of iteration order. That the hash map honours hashes is C07's business and is not decided here.",
+ "C08": ("sibling agreement between Equal and Hash implementations: receiver-field subset check per type (EH-PAIR), per-case checks inside vals.Hash - zero normalisation, commutative and identical map/field-map combiners (EH-CASE), case-order consistency (EH-ORDER), reachability rule from Hash/Equal to mutable state (KEY-STABLE), dominance of collision-node construction by hash equality (COLLISION-HASH)",
+         "Structural necessary condition for 'eq implies same hash', type by type: fields hashed are fields compared, address hashes only with identity equality, +0/-0 hash alike, eq maps and field maps hash alike regardless of iteration order; Hash and Equal read no state a later operation changes (two known findings: a file is identified by its descriptor, which changes on close); a collision node of the hash trie only ever holds keys of one hash. Other properties of the hash map are C07's business.",
          "trusts go/ssa; reflect-based equality (DeepEqual) counts as comparing all fields"),
  "C09": ("agreement of the number-representation sets across the comparison machinery's type switches (NUMSET), detection of lossy conversions on the comparison path (CMP-DOMAINS)",
          "Two structural necessary conditions of a transitive total preorder: all number switches range over exactly {int, *big.Int, *big.Rat, float64}; no exact operand is ordered through float64 while exact pairs are ordered exactly (known finding on today's tree, documented behaviour). Reflexivity, symmetry, NaN placement and list order are not decided.",
@@ -62,17 +62,17 @@ CLAIMED = {
  "C25": ("who-may rule for bbolt mutations (TX-ONLY), constant evaluation of bolt.Options (SYNC-ON), def-use check that transaction errors are returned (ACK-AFTER-COMMIT)",
          "Structural argument that durability is delegated to bbolt correctly: mutations only inside DB.Update (or initDB, run inside Update), fsync never disabled for the persistent store and a positive lock timeout, every operation returns its transaction's error. bbolt's own crash behaviour is trusted, not decided.",
          "trusts go/ssa and bbolt; audited: the temporary test store opens with NoSync"),
- "C26": ("path check that each store operation runs at most one transaction (ONE-TX), field-write and call-count check on RPC handlers (STATELESS-SERVICE)",
-         "Structural argument for linearizability: each operation is exactly one bbolt transaction (bbolt serialises them) and the RPC service adds no state or multi-step handlers. Client reconnect logic, transport and real interleavings are not decided.",
+ "C26": ("path check that each store operation runs at most one transaction (ONE-TX), field-write and call-count check on RPC handlers (STATELESS-SERVICE), freshness of the per-request argument and reply objects in the RPC server (REPLY-FRESH)",
+         "Structural argument for linearizability: each operation is exactly one bbolt transaction (bbolt serialises them) and the RPC service adds no state or multi-step handlers, and each request is served with argument and reply objects allocated for it alone. Client reconnect logic, transport and real interleavings are not decided.",
          "trusts go/ssa and bbolt's transaction isolation"),
- "C27": ("dominance of the socket removal by the success edge of Listen (REMOVE-OWN), guard check on every exit of the serve loop (SERVE-WHILE-CLIENTS)",
-         "Two structural clauses: the daemon removes only a socket it successfully listened on, and leaves its serve loop only on a signal or when no client is connected, with the connection set touched only by the loop. The cross-process activation races are explicitly not decided.",
+ "C27": ("dominance of the socket removal by the success edge of Listen (REMOVE-OWN), guard check on every exit of the serve loop (SERVE-WHILE-CLIENTS), closed-channel receive rule on select loops (RECV-CLOSED-ONCE), single-unlink rule (UNLINK-ONCE), dominance of the stale-socket status by errors.Is(err, ECONNREFUSED) (STALE-ONLY-REFUSED)",
+         "Structural clauses: the daemon removes only a socket it successfully listened on, and only once; it leaves its serve loop only on a signal or when no client is connected, with the connection set touched only by the loop, and the loop cannot spin on a closed channel; a shell declares a socket stale only when connecting was refused. The cross-process activation races as a whole are not decided.",
          "trusts go/ssa"),
  "C31": ("length-lower-bound analysis of every index into lists built from terminal bytes (SEQ-INDEX); constant/provenance evaluation of every read timeout in the terminal reader (TIMEOUT-ALL)",
          "Structural necessary conditions: ('without crashing') every index or slice operation of the decoder on a list built from terminal bytes is within a length established on every path; ('never blocks past its timeout') every read after the first byte of an event carries a timeout that is a positive package constant or the caller's own; blocking reads are first on every path and outside loops. Decoding correctness is not decided.",
          "trusts go/ssa; unix reader only (reader_unix.go)"),
- "C33": ("who-may-construct rule for ui.Text values with a guarded single-segment idiom and an audit table (NF-BUILDER)",
-         "Structural necessary condition for the normal-form clause inside pkg/ui: a Text is assembled by hand only inside the normalising API (TextBuilder, TextFromSegment, Concat), as a single non-empty segment, or at audited sites that preserve normal form; one known finding (StyleText, pinned by an existing unit test). Content equalities and the styledown round trip are not decided.",
+ "C33": ("who-may-construct rule for ui.Text values with a guarded single-segment idiom and an audit table (NF-BUILDER), freshness of what TextBuilder.Text returns (BUILDER-FRESH), bounds-differ guard on returned slices of a text (SLICE-NONEMPTY)",
+         "Structural necessary condition for the normal-form clause inside pkg/ui: a Text is assembled by hand only inside the normalising API (TextBuilder, TextFromSegment, Concat), as a single non-empty segment, or at audited sites that preserve normal form; one known finding (StyleText, pinned by an existing unit test); the builder never hands out its own array; an empty slice of a text is nil. Content equalities and the styledown round trip are not decided.",
          "trusts go/ssa and the normalising API itself; Text values assembled outside pkg/ui are not examined"),
  "C40": ("ownership pairing for opened descriptors (OPEN-OWNED), must-call rule for returned cleanup functions on all success paths (CLEANUP-CALLED), close-before-overwrite dominance (REPLACE-CLOSES), spawn/join pairing (JOINED)",
          "Structural necessary conditions: every descriptor the evaluator opens is closed in place or recorded as owned by a form whose epilogue closes it; every cleanup function of a capture/pipe/file port is called or handed on on every path; a redirection closes the port it replaces; every goroutine is joined. Descriptor counts and the os.Pipe-failure path are not decided.",
@@ -80,11 +80,11 @@ CLAIMED = {
  "C42": ("constant evaluation of the open-flag table against the mode specification (FLAGS), taint-to-index check on the port table (FD-RANGE), guard check for self-duplication (DUP-SELF), ownership and close-before-overwrite rules (OPEN-OWNED, REPLACE-CLOSES), literal check for the closed port (SENDERR-NONNIL), totality of value I/O on installed ports: non-nil channel in every Port literal and closed-placeholder exclusion before every send (PORT-TOTAL), control-dependence check of the invalid-fd decision (FD-VALID)",
          "Structural necessary conditions: each redirection mode compiles to exactly its open(2) flags, evaluated fds are range-checked on both sides before indexing or growing the port table, n>&n does not reuse a port it just closed, files opened by a redirection are owned by the form, the replaced port is closed, n>&- installs a port whose value output raises, and whether an fd is invalid depends on the number and the table entry only, never on the state of the port found. Actual byte routing is not decided.",
          "trusts go/ssa and go/constant; flag values are read from package os for the analysed platform (thorough tier: five platforms)"),
- "C39": ("lockset dataflow over SSA with boolean-correlated path sensitivity (EVALER-LOCK, PTRVAR-LOCK); guarded-field set derived from the struct declaration (GUARDED-SET); table-free write-under-read-lock contradiction rule (RLOCK-WRITE)",
-         "Structural necessary condition, all paths of all functions: every access to the interpreter's mutex-guarded fields and every dereference of a PtrVar pointer happens with the right lock held; maps do not leave the critical section; locks are balanced. Freedom from races on other state and serialisability of results are not decided.",
+ "C39": ("lockset dataflow over SSA with boolean-correlated path sensitivity (EVALER-LOCK, PTRVAR-LOCK); guarded-field set derived from the struct declaration (GUARDED-SET); table-free write-under-read-lock contradiction rule (RLOCK-WRITE); lock-region check on writes through Frame fields shared by forks (FORK-SHARED)",
+         "Structural necessary condition, all paths of all functions: every access to the interpreter's mutex-guarded fields and every dereference of a PtrVar pointer happens with the right lock held; maps do not leave the critical section; locks are balanced; what the forks of a frame share through a pointer field is written only under a mutex. Freedom from races on other state and serialisability of results are not decided.",
          "trusts go/ssa; lock identity is by struct field, not by object (one Evaler per interpreter)"),
- "C32": ("lockset on the redraw flag (FULL-LOCK), select/capacity shape check (NONBLOCK), path pairing on the event loop's CFG (FINAL-ONCE, REDRAW-AFTER-WAKE)",
-         "Structural necessary conditions: the full-redraw flag is set before the wake-up token inside one critical section, request sends never block and are never dropped for lack of buffer, every return of the loop passes exactly one final redraw, the loop starts no goroutine and always redraws between two waits. Arrival order and liveness under real schedules are not decided.",
+ "C32": ("lockset on the redraw flag (FULL-LOCK), select/capacity shape check (NONBLOCK), path pairing on the event loop's CFG (FINAL-ONCE, REDRAW-AFTER-WAKE), who-may-send rule on the input channel (INPUT-FIFO)",
+         "Structural necessary conditions: the full-redraw flag is set before the wake-up token inside one critical section, request sends never block and are never dropped for lack of buffer, every return of the loop passes exactly one final redraw, the loop starts no goroutine and always redraws between two waits, and events enter the input channel through the supplier's own send. Arrival order beyond that and liveness under real schedules are not decided.",
          "trusts go/ssa"),
  "C30": ("lockset on the highlight cache (CACHE-LOCK), control-dependence check of the late store on cache.code == captured code (STALE-GUARD), literal/def-use agreement (GET-CONSISTENT)",
          "Structural lemma for the 'never stale' clause: a late result is stored only if, under the lock, the cached code still equals the code it was computed for; the synchronous path caches code and result together. That highlighted segments concatenate back to the code is not decided.",
